@@ -466,6 +466,66 @@ func (b *B) Bin(op Op, x, y *T) *T {
 				return x.B
 			}
 		}
+		if op == OXor && (x.Op == OXor || y.Op == OXor) {
+			// AC-normalise small xor chains: flatten, cancel equal operands, fold constants
+			var leaves []*T
+			var collect func(t *T, d int) bool
+			collect = func(t *T, d int) bool {
+				if t.Op == OXor && d < 6 {
+					return collect(t.A, d+1) && collect(t.B, d+1)
+				}
+				leaves = append(leaves, t)
+				return len(leaves) <= 12
+			}
+			if collect(x, 0) && collect(y, 0) {
+				cnt := map[*T]int{}
+				var order []*T
+				var cst uint64
+				for _, l := range leaves {
+					if l.Op == OConst {
+						cst ^= l.V
+						continue
+					}
+					if cnt[l] == 0 {
+						order = append(order, l)
+					}
+					cnt[l]++
+				}
+				var keep []*T
+				cancelled := false
+				for _, l := range order {
+					if cnt[l]%2 == 1 {
+						keep = append(keep, l)
+					}
+					if cnt[l] > 1 {
+						cancelled = true
+					}
+				}
+				if cancelled {
+					// rebuild in id order
+					for i := 1; i < len(keep); i++ {
+						for j := i; j > 0 && keep[j].ID < keep[j-1].ID; j-- {
+							keep[j], keep[j-1] = keep[j-1], keep[j]
+						}
+					}
+					var r *T
+					for _, l := range keep {
+						if r == nil {
+							r = l
+						} else {
+							r = b.Bin(OXor, r, l)
+						}
+					}
+					if r == nil {
+						return b.Const(w, cst)
+					}
+					if cst != 0 {
+						r = b.Bin(OXor, r, b.Const(w, cst))
+					}
+					return r
+				}
+			}
+		}
 		if op == OXor {
 			if x.Op == OXor {
 				if x.B == y {
